@@ -8,10 +8,12 @@ after an NRDY, numbers packets with consecutive sequence numbers that advance on
 ACK, resends the same packet when the host asks for a retry, and delivers the stream exactly once in
 order with short-packet/ZLP transfer ends."
 
-STATUS: PARTIAL.  This file: one-step and invariant theorems.  The history-level host-view theorem
-`ss_in_exactly_once` (data: delivered ++ pending = accepted from the producer, keyed on sequence numbers) is
-proved in `Props/C46Once.lean` (lemmas in `Lemmas/C46View|C46Buf|C46Ghost|C46StepIdle|C46StepSend|C46StepAck.lean`);
-what is still missing is the framing half at history level (short-packet / ZLP transfer ends).
+STATUS: this file has the one-step and invariant theorems.  The history-level host-view theorems are
+`ss_in_exactly_once` (data: delivered ++ pending = accepted from the producer, keyed on sequence numbers;
+`Props/C46Once.lean`, lemmas in `Lemmas/C46View|C46Buf|C46Ghost|C46StepIdle|C46StepSend|C46StepAck.lean`) and
+`ss_in_framing` (short-packet / ZLP transfer ends: accepted packets ++ held packets = reference packetization;
+`Props/C46Framing.lean`, lemmas in `Lemmas/C46Frame|C46FrameStep1|C46FrameStep2.lean`), both for
+max_packet_size ≥ 8 (for max_packet_size = 4 the statement is false, see `hStale` in Props/C46Once.lean).
 The model is the endpoint **as repaired** by six `fix:` commits (branch wt-ssep); the unrepaired code
 violated the property in six ways, each replayed on the real gateware (KNOWN_FINDINGS.jsonl, C46).
 
@@ -36,9 +38,6 @@ violated the property in six ways, each replayed on the real gateware (KNOWN_FIN
 * `…_repaired` examples: the input histories on which the unrepaired code failed (replayed on the gateware
   as directed cases by the harness).
 
-NOT proved at history level (checked by the monitor on every co-simulated trace, sig `ss-in-framing`):
-  ss_in_framing : every data packet the host accepts is max_packet_size long or ends at a transfer end of the
-     producer stream, and a ZLP is sent exactly after a full packet that ended its transfer.
 -/
 namespace LunaVerif.SSStreamIn
 
